@@ -930,6 +930,13 @@ WITNESSES = [
     "class A:\n    'doc'\n    x: int = 1\n    def m(self): return super().m()[1:2, ::3].a\n",
     "def h():\n    '''Doc.\n\n    for x in y: not code\n    '''\n    return 1\n",
     "lambda: (yield)\nx = lambda: 0\ny = (lambda a, b=1: a)(2)\n",
+    "# -*- coding: latin-1 -*-\nx = '\u20ac'\n",
+    "del a, b,\n",
+    "m = f\"'{ # r'q\na}' t\"\n",
+    "raise E(f'{ # f\"{\nself.a} d \"p\"')\n",
+    "x = f\"{{({b})}}\"\n",
+    "async def case_(*\u03bb) -> lambda *if_: [T for d in n if typed.format]:\n    if (e.format or q,)():\n        pass\n",
+    "def g(*a) -> lambda *if_: [T for d in n if t.f]:\n    if (e.f or q,)():\n        pass\n",
 ]
 
 
